@@ -295,6 +295,8 @@ def k_input_value(d):
             found.append('wrong-type')
         if isinstance(val, float) and not math.isfinite(val):
             found.append('non-finite')
+        if d['cls'] == 'SSNInput' and not (isinstance(val, str) and len(val) == 9 and all(ch in '0123456789' for ch in val)):
+            found.append('value-not-in-format')
     elif outcome == 'invalid':
         if valid is not False:
             found.append('invalid-but-valid')
@@ -545,6 +547,86 @@ def k_fdf_value(d):
     return {'reproduced': not ok, 'detail': detail}
 
 
+
+def k_line_fn(d):
+    """Unit-level replay: the real (uninstrumented) definition of one line is called on concrete
+    values of the inputs / lines it reads, once as given and once with two copies of a form
+    renumbered; reproduced iff the two outcomes differ."""
+    from habutax import forms, form as hform, inputs as I, fields as F
+    classes = {c.form_name: c for c in forms.available_forms[d['year']]}
+    made = {}
+
+    class FS(object):
+        class _V(object):
+            def __getitem__(self, name):
+                return mk(name)
+
+            def __contains__(self, name):
+                try:
+                    mk(name)
+                    return True
+                except KeyError:
+                    return False
+        forms = _V()
+    fs = FS()
+
+    def mk(full):
+        if full not in made:
+            name, inst = hform.name_and_instance(full)
+            made[full] = classes[name](solver=fs, instance=inst)
+        return made[full]
+
+    def fld(name):
+        f = mk(name.split('.', 1)[0])
+        for x in f.fields():
+            if x.name() == name:
+                return x
+        raise KeyError(name)
+
+    def inp(name):
+        f = mk(name.split('.', 1)[0])
+        for x in f.inputs():
+            if x.name() == name:
+                return x
+        raise KeyError(name)
+
+    def swap(name):
+        a, b = '%s:0.' % d['form'], '%s:1.' % d['form']
+        if name.startswith(a):
+            return b + name[len(a):]
+        if name.startswith(b):
+            return a + name[len(b):]
+        for pre in d.get('families', []):     # listing rows driven by the two copies swap with them
+            if name == pre + '0':
+                return pre + '1'
+            if name == pre + '1':
+                return pre + '0'
+        return name
+
+    def run(swapped):
+        class Ins(object):
+            def __getitem__(self, key):
+                k = swap(key) if swapped else key
+                if k not in d['inputs']:
+                    raise I.MissingInput(key)
+                return inp(key).value(d['inputs'][k])
+
+        class Vals(object):
+            def __getitem__(self, key):
+                k = swap(key) if swapped else key
+                if k not in d['values']:
+                    raise KeyError('no value supplied for %s' % key)
+                return fld(key).from_string(d['values'][k])
+        f = fld(d.get('line_swapped', d['line']) if swapped else d['line'])
+        try:
+            v = f.value(hform.FormAccessor(Ins(), f.form()), hform.FormAccessor(Vals(), f.form()))
+            return ('value', f.to_string(v))
+        except Exception as e:
+            return ('exc', type(e).__name__ + ': ' + str(e)[:120])
+    a, b = run(False), run(True)
+    return {'reproduced': a != b, 'detail': 'as numbered: %s; copies renumbered: %s' % (a, b)}
+
+
 def k_field_roundtrip(d):
     from habutax import fields as F, enum as E
     en = E.make('Color', {'red': 'r', 'green': 'g', 'Blue_2': 'b'})
@@ -695,7 +777,7 @@ def k_metamorphic(d):
     return {'reproduced': bool(rep), 'detail': det}
 
 
-KINDS = {'metamorphic': k_metamorphic, 'statutory': k_statutory, 'field_roundtrip': k_field_roundtrip, 'solution_roundtrip': k_solution_roundtrip, 'fdf_value': k_fdf_value, 'cli_session': k_cli_session, 'field_value': k_field_value, 'figure_tax': k_figure_tax, 'solve': k_solve, 'program': k_program, 'input_value': k_input_value}
+KINDS = {'line_fn': k_line_fn, 'metamorphic': k_metamorphic, 'statutory': k_statutory, 'field_roundtrip': k_field_roundtrip, 'solution_roundtrip': k_solution_roundtrip, 'fdf_value': k_fdf_value, 'cli_session': k_cli_session, 'field_value': k_field_value, 'figure_tax': k_figure_tax, 'solve': k_solve, 'program': k_program, 'input_value': k_input_value}
 
 
 def main():
